@@ -1375,13 +1375,16 @@ class H2Stream:
         pipeline on them to transform them into the appropriate form for
         attaching to an event.
         """
+        # Validate what was received, not what we turn it into: joining the
+        # cookie fields first would hide, for instance, the whitespace around
+        # the value of any but the first and last of them.
+        if self.config.validate_inbound_headers:
+            headers = validate_headers(headers, header_validation_flags)
+
         if self.config.normalize_inbound_headers:
             headers = normalize_inbound_headers(
                 headers, header_validation_flags
             )
-
-        if self.config.validate_inbound_headers:
-            headers = validate_headers(headers, header_validation_flags)
 
         if header_encoding:
             headers = _decode_headers(headers, header_encoding)
